@@ -41,6 +41,11 @@ CLAIMED = {
         "Trusted: go/types, the path enumerator over the walker's syntax. Assumed: trees contain only the module's node kinds. Not decided: what user visitors do. One known finding (F12: inRange shares one operand node).",
         "exhaustiveness + per-path slot-consumption analysis of the walker's type switch (AST paths, go/types), who-passes-which-tree dataflow in expr.Compile, rewrite-site linearity",
         "DESIGN.md §4 C10, §3 E1/E6"),
+    "C12": (
+        "ONE necessary condition, thin and said so: the routing of number spellings. From the scanner's digit alphabets (default, and the one installed after each accepted radix prefix) and the parser's ordered classification predicates, every spelling class the property names — decimal integers, and hexadecimal integers for every prefix letter the scanner accepts — is routed, uniformly for all its members, to an integer parse whose base fits: a predicate whose character set meets the class's alphabet may be reached only if an earlier predicate already matches every member of the class. Breaking it makes some literal of the class be rejected or mis-valued (the property's own example `0x1e`). Value round-tripping itself is not decided.",
+        "Trusted: go/types; the two small extractors (scanner alphabets, parser classification chain), which fail closed: a chain test that is not strings.Contains/ContainsAny of a constant is an undecided obligation. NOT decided: that strconv returns exactly the written number; string scanning and unescaping (R12.2 not built); token line/column (R12.3 not built); octal and binary prefixes (outside the property).",
+        "cross-check of the scanner's alphabets against the parser's ordered classification predicates (set reasoning over finite character sets)",
+        "DESIGN.md §4 C12 (R12.1 only)"),
     "C13": (
         "That every node, error and instruction CARRIES a location taken from the construct it describes — a necessary condition of reporting the right position: every node literal the parser builds has SetLocation called on it with a non-empty location before it is returned, stored or reassigned; of the nodes the optimizer passes and the operator patcher build, the root of a replacement goes through ast.Patch (which copies the location, C10 R10.4) and every nested fresh node is given a location explicitly or is of a kind whose code cannot fail (templates of constant pushes whose handlers only call the push/constant primitives); every file.Error literal takes its Location from a node, a token, the lexer position or the program's location table; the emitter files the location of the node on top of its node stack under the offset of the opcode it appends, the node stack is pushed and popped around every dispatch, and the VM's recover handler looks the table up with the saved offset of the opcode being executed.",
         "Trusted: go/types, the template and signature extractors (shared with C05), the rewrite-site extractor (shared with C10). NOT decided: that the location a node carries is the right one (map keys and pairs inherit the brace's position); column arithmetic for multi-line and non-ASCII sources; the snippet rendering; that every *file.Error leaving the API passed through Bind with the right source (R13.5 not built).",
@@ -60,7 +65,6 @@ NOT_APPLICABLE = {
     "C02": "observational equivalence of optimized and unoptimized programs quantifies over all environment values; the guard analysis of the rewrite sites (DESIGN.md §4 C02) was not built, and its planned fixes were therefore not applied. " + _NOT_BUILT,
     "C03": "type soundness over all environment values of a type needs an abstract interpretation of checker and VM over reflect types that is out of reach; the agreement rules of DESIGN.md §4 C03 were not built. " + _NOT_BUILT,
     "C11": "round-trip equality of printing and parsing for every tree, and agreement with a reference grammar for every token sequence, are statements about parser results; the binding-power table cross-check of DESIGN.md §4 C11 was not built. " + _NOT_BUILT,
-    "C12": "exactness of lexed string and number values for every literal is a statement about run-time values of the scanner; the classification-order rules of DESIGN.md §4 C12 were not built. " + _NOT_BUILT,
     "C15": "equality of results between typed and untyped compilation for every environment value is a run-time equivalence; the instruction-selection guard rules of DESIGN.md §4 C15 were not built. " + _NOT_BUILT,
     "C16": "agreement of the checker's name table with reflection-based lookup for every environment type quantifies over all Go types; the member-class agreement rules of DESIGN.md §4 C16 were not built. " + _NOT_BUILT,
     "C17": "equivalence of an overloaded operator occurrence with the function call for every operand value is behavioural; the patcher/checker agreement rules of DESIGN.md §4 C17 were not built (the traversal part it relies on is decided under C10). " + _NOT_BUILT,
